@@ -34,12 +34,12 @@ type Verdict struct {
 	// base + k*unit with 0 <= k <= max is accepted: the function's own cost plus a whole number of copied bytes that
 	// does not exceed what the moved token data can occupy.
 	ChargeBand *[3]uint64 // base, unit, max
-	Labels      []string
-	Named       [][]byte // token identifiers named by the input (C05)
-	Suffixes    []string // exact balance keys (token + nonce) the input names; empty = only the token is known (C05)
-	Credits     []string // addresses credited through a transfer (C09 generic monitor)
-	PayExempt   bool
-	msgItems    []Item
+	Labels     []string
+	Named      [][]byte // token identifiers named by the input (C05)
+	Suffixes   []string // exact balance keys (token + nonce) the input names; empty = only the token is known (C05)
+	Credits    []string // addresses credited through a transfer (C09 generic monitor)
+	PayExempt  bool
+	msgItems   []Item
 }
 
 func u64p(v uint64) *uint64 { return &v }
